@@ -77,6 +77,19 @@ let notation t =
   end
 let syms : (n * str) list ref = ref []
 
+let str t = let k = int t in times k (fun () -> num t)
+let call t =
+  match next t with
+  | "EV" -> KEVar (num t) | "SV" -> KSVar (num t) | "SY" -> KSymbol (str t)
+  | "MV" -> let id = num t in let a = nlist t in let b = nlist t in let c = nlist t in let d = nlist t in
+            let e = nlist t in KMetaVar (id, a, b, c, d, e)
+  | "IM" -> KImplies | "AP" -> KApp | "EX" -> KExists (num t) | "MU" -> KMu (num t)
+  | "ES" -> KESubst (num t) | "SS" -> KSSubst (num t)
+  | "P1" -> KProp1 | "P2" -> KProp2 | "P3" -> KProp3 | "MP" -> KModusPonens | "QU" -> KQuantifier
+  | "GE" -> KGeneralization (num t) | "IN" -> KInst (nlist t)
+  | "PO" -> KPop | "SA" -> KSave | "LO" -> let s = str t in let i = num t in KLoad (s, i) | "PU" -> KPublish
+  | _ -> raise Bad
+
 let fuelled = function None -> "FUEL" | Some s -> s
 let tuple l = String.concat " " (string_of_int (List.length l) :: List.map show l)
 
@@ -153,6 +166,12 @@ let run line =
             fuelled (Option.map (function None -> "RAISE"
                                         | Some s -> String.concat " " ("S" :: List.map (fun c -> string_of_int (int_of_n c)) s))
                        (pretty f n o p))
+  | "EMIT" -> let k = int t in let cs = times k (fun () -> call t) in
+      let bs = emits [] cs in
+      let ints l = String.concat " " (List.map (fun c -> string_of_int (int_of_n c)) l) in
+      let dec = (match decode (nat_of_int k) bs with
+                 | Some l -> if List.length l = k then "1" else "0" | None -> "0") in
+      "B " ^ dec ^ " " ^ ints bs ^ " | " ^ String.concat " ; " (List.map (fun c -> ints (pretty_step c)) cs)
   | "COV" -> let nt = notation t in b2s (covers nt)
   | _ -> raise Bad
 
